@@ -15,6 +15,8 @@ CHECKS = {
          TECH + "; differential testing against a reference model and linearizability checking (porcupine) of recorded histories"),
  "C07": ("exploration", "Seeded exploration of fault sequences (backend reset/close at any step, crash then restart on the same address, refused or timed-out first connect, re-sharding including emptying a master) around a steady request stream; after the last fault, with every backend reachable and the proxy quiescent, probe rounds read every node's keys: they must be answered correctly (no error), errors are admitted only for requests invoked before the heal point, and a second probe round at least one simulated minute later must cause no redirection.", "4.C07",
          TECH + "; bounded-liveness probes after faults stop"),
+ "C04": ("exploration", "Seeded exploration of migration scripts (IMPORTING, MIGRATING, one MIGRATE per key, SETSLOT) for 1-3 slots, graceful and crash fail-overs and lagging CLUSTER NODES views, every step interleaved as a simulator event with pipelined traffic on the affected keys; oracle: no reply (or nested element) is a MOVED/ASK error, every attributable write is executed by exactly one node, per-key histories are linearizable w.r.t. a reference Redis (errors admitted only around a crash fail-over and then treated as may-or-may-not-have-happened), per-connection program order is checked separately, and after settling probes see no error and a later round causes no redirection.", "4.C04",
+         TECH + "; linearizability checking (porcupine) of recorded histories against a reference Redis"),
 }
 NA = {
 }
